@@ -23,3 +23,6 @@ run $A/preprocessor/condition_stack.py 's/^            self._mute_counter -= 1$/
 run $A/line_object/data_line.py 's/^            for b in value_bytes:$/            for one_byte in value_bytes:/; s/^                self._append_byte(b)$/                self._append_byte(one_byte)/' C11 DataLine.generate_bytes "rename a loop variable"
 run $A/engine.py 's/^        global_label_scope = self._model.global_label_scope$/        for _p in self._include_paths:\n            pass\n        global_label_scope = self._model.global_label_scope/' C04 Assembler "insert a new loop before the contracted loops of the engine"
 run $A/engine.py 's/^        global_label_scope = self._model.global_label_scope$/        for _p in self._include_paths:\n            pass\n        global_label_scope = self._model.global_label_scope/' C03 Assembler "insert a new loop before the contracted loops of the engine (image blocks)"
+run $A/assembly_file.py 's/\blobj\b/line_obj/g' C06 AssemblyFile.load_line_objects "rename the loop variable named by the per-line-object block"
+run $A/line_object/factory.py 's/^            instruction_str = preprocessor.resolve_symbols(line_id, instruction_str)$/            if log_verbosity > 5:\n                print(instruction_str)\n            instruction_str = preprocessor.resolve_symbols(line_id, instruction_str)/' C09 LineOjectFactory.parse_line "add a diagnostic print inside the substitution block of the line factory"
+run $A/line_object/directive_line/memzone.py 's/^        self._memzone_manager = memzone_manager$/        self._memzone_manager: MemoryZoneManager = memzone_manager/' C05 SetMemoryZoneLine "annotate an assignment"
